@@ -43,5 +43,7 @@ Escape(b) == <<48, 120, HexDigit(b \div 16), HexDigit(b % 16)>>
 EchoOf(a) == Concat([i \in 1..Len(a) |-> IF IsCtl(a[i]) THEN Escape(a[i]) ELSE <<a[i]>>])
 \* the property pins the echo only for well-formed lines without control characters (echoed unchanged); how control
 \* characters or undecodable bytes are shown is the tool's business
-EchoPinned(a) == WellFormed(a) /\ \A i \in 1..Len(a) : ~IsCtl(a[i])
+\* (C1 controls U+0080..U+009F, bytes C2 80..9F, count as control characters too: not pinned)
+EchoPinned(a) == /\ WellFormed(a) /\ \A i \in 1..Len(a) : ~IsCtl(a[i])
+                 /\ ~\E i \in 1..(Len(a) - 1) : a[i] = 194 /\ a[i+1] \in 128..159
 =============================================================================
